@@ -7,6 +7,7 @@ import PeptVerif.Props.C01
 #print axioms Pept.parseMiddle_serializeMiddle
 #print axioms Pept.parseEnd_serializeEnd
 #print axioms Pept.parse_serialize
+#print axioms Pept.parse_serialize_include_plus
 #print axioms Pept.serialize_fixpoint
 #print axioms Pept.parse_serialize_multi_partial
 #print axioms Pept.parse_joined
